@@ -1042,6 +1042,13 @@ class Exec:
         selfty = canon_generic(args[0]); targs = [canon_generic(a) for a in args[1:]]
         if d == "core::convert::Into::into" and len(args) == 2:
             return {"def": f["def"], "args": args, "res": {"def": "<T as core::convert::Into<U>>::into", "args": args, "local": False}}
+        if d in ("core::borrow::Borrow::borrow", "core::borrow::BorrowMut::borrow_mut") and len(args) == 2:
+            # the identity impls of core: `T: Borrow<T>`, `&T: Borrow<T>`, `&mut T: Borrow<T>`
+            bare = re.sub(r"^&(mut )?", "", selfty)
+            if selfty == targs[0]:
+                return {"def": f["def"], "args": args, "res": {"def": "<T as core::borrow::Borrow<T>>::borrow", "args": args[:1], "local": False}}
+            if bare == targs[0]:
+                return {"def": f["def"], "args": args, "res": {"def": "<&T as core::borrow::Borrow<T>>::borrow", "args": args[:1], "local": False}}
         if d == "core::convert::From::from" and len(args) == 2 and selfty == targs[0]:
             return {"def": f["def"], "args": args, "res": {"def": "<T as core::convert::From<T>>::from", "args": args[:1], "local": False}}
         for n in range(len(targs), -1, -1):
@@ -1082,6 +1089,13 @@ class Exec:
             return ("value", mk("call", "From<%s> for %s" % (T, U), self.deref_value(st, args[0])))
         if base == "<T as core::convert::From<T>>::from":
             return ("value", args[0])
+        if base in ("<T as core::borrow::Borrow<T>>::borrow", "<T as core::borrow::BorrowMut<T>>::borrow_mut") and len(args) == 1:
+            return ("value", args[0])       # &T -> &T
+        if base in ("<&T as core::borrow::Borrow<T>>::borrow", "<&mut T as core::borrow::Borrow<T>>::borrow", "<&mut T as core::borrow::BorrowMut<T>>::borrow_mut") \
+                and len(args) == 1 and tag(args[0]) == "ref":
+            inner = self.load(st, args[0][1], args[0][2])      # &&T -> &T
+            if tag(inner) == "ref":
+                return ("value", inner)
         if base == "<T as core::convert::TryInto<U>>::try_into" and r is not None:
             T, U = [canon_generic(a) for a in r["args"][:2]]
             ident = "<%s as core::convert::TryFrom<%s>>::try_from" % (U, T)
@@ -1113,7 +1127,50 @@ class Exec:
                 return True
             if range_next and const_range(v) is not None and "Range<" in fr.mir["locals"][l]["ty"]:
                 return True
-        return False
+        return self.counter_loop(st, fr, head)
+
+    def counter_loop(self, st, fr, head):
+        """every branch inside the loop tests locals that are constant on entry and are only combined with constants and with
+        one another inside it (a counter): the trip count is concrete and the loop is unrolled, not havoc'd"""
+        cs, assigned, through = self.loop_info(fr.mir)[head]
+        blocks = fr.mir["blocks"]
+        def root(op):
+            if "const" in op:
+                return None
+            pl = op.get("copy") or op.get("move")
+            if pl is None or any(e == "deref" or (isinstance(e, dict) and ("idx" in e or "cidx" in e)) for e in pl["p"]):
+                return -1
+            return pl["l"]
+        def constish(v):
+            return v is None or is_const(v) or (tag(v) == "agg" and all(x is not None and constish(x) for x in v[2]))
+        conc = {l for l in assigned if constish(st.store.get(fr.locs[l]))}
+        changed = True
+        while changed:
+            changed = False
+            for bi in cs:
+                for s_ in blocks[bi]["s"]:
+                    if "lhs" not in s_ or s_["lhs"]["l"] not in conc:
+                        continue
+                    rv = s_["rv"]
+                    ops = [rv[k_] for k_ in ("use", "a", "b") if isinstance(rv.get(k_), dict)]
+                    ok = not s_["lhs"]["p"] and any(k_ in rv for k_ in ("use", "bin", "un", "cast")) and all(root(o) is None or root(o) in conc for o in ops)
+                    if not ok:
+                        conc.discard(s_["lhs"]["l"]); changed = True
+                t = blocks[bi]["t"]
+                if t["k"] == "call" and t["dest"]["l"] in conc:
+                    conc.discard(t["dest"]["l"]); changed = True
+        has_exit = False
+        for bi in cs:
+            t = blocks[bi]["t"]
+            if t["k"] == "switch":
+                r_ = root(t["d"])
+                if r_ is None:
+                    continue
+                if r_ not in conc:
+                    return False
+                if any(x not in cs for x in list(t["targets"]) + [t["otherwise"]]):
+                    has_exit = True
+        return has_exit
 
     def slice_view(self, st, v):
         """(carray, lo, hi) of a constant table or constant-range slice of one"""
@@ -1434,6 +1491,11 @@ class Exec:
         name, callee, r = self.callee_name(fdesc)
         if callee is None:
             pv = self.primitive_foreign(st, name, r, args)
+            if pv is None and r is None and fr.subst and fdesc.get("def"):
+                # an Iterator / IntoIterator method the compiler left unresolved inside a generic helper, applied to a concrete
+                # table iterator of the inlined instance
+                r2 = {"def": fdesc["def"], "args": fdesc.get("args", []), "local": False}
+                pv = self.iterator_foreign(st, F.norm_path(fdesc["def"]), r2, args, args)
             if pv is not None:
                 self.write_place(st, fr, t["dest"], pv)
                 return None
